@@ -4,10 +4,7 @@ from mapgen import *
 
 PROP = "C06"
 CONSTS = ["B64_CHARS", "B64"]
-THEOREMS = {"SmVerif.Props.C06": [
-    "SmVerif.C06.c06_foreign_byte", "SmVerif.C06.c06_truncated", "SmVerif.C06.c06_too_long",
-    "SmVerif.C06.c06_arity", "SmVerif.C06.c06_src_oob", "SmVerif.C06.c06_name_oob", "SmVerif.C06.c06_ok_resolves",
-]}
+THEOREMS = {"SmVerif.Props.C06": ["SmVerif.C06.c06_fault_rejected", "SmVerif.C06.c06_foreign_byte", "SmVerif.C06.c06_truncated", "SmVerif.C06.c06_too_long", "SmVerif.C06.c06_arity", "SmVerif.C06.c06_ok_resolves"]}
 TRUSTED = BASE_TRUST + ["model: lean/SmVerif/Model/Mappings.lean mirrors the token loop of decode_regular (decoder.rs) and parse_vlq_segment_into (vlq.rs)",
                         "serde_json delivers the `mappings` string, `sources` and `names` arrays unchanged (JSON layer trusted, exercised)"]
 ASSUMPTIONS = ["earlier faults may win: the theorems say *an* error is returned, not which"]
